@@ -5,21 +5,40 @@ prints one JSON line: [{"args":..., "outcome": "ok"|"skip"|"fail", "detail": ...
 """
 import importlib
 import json
+import os
+import signal
 import sys
 import traceback
+
+
+class _Hang(BaseException):
+    pass
+
+
+def _alarm(signum, frame):
+    raise _Hang()
+
+
+LIMIT = float(os.environ.get("VERIF_REPLAY_LIMIT", "30"))
 
 
 def run_one(fn, args):
     from vfw.obl import Skip
 
+    signal.signal(signal.SIGALRM, _alarm)
+    signal.setitimer(signal.ITIMER_REAL, LIMIT)
     try:
         ret = fn(**args)
+    except _Hang:
+        return "fail", "did not terminate within %.0f s on plain CPython" % LIMIT
     except Skip:
         return "skip", None
     except Exception as e:  # noqa: BLE001
         tb = traceback.extract_tb(e.__traceback__)
         where = "%s:%d" % (tb[-1].filename, tb[-1].lineno) if tb else "?"
         return "fail", "exception %s: %s at %s" % (type(e).__name__, str(e)[:200], where)
+    finally:
+        signal.setitimer(signal.ITIMER_REAL, 0)
     if ret is None or ret is True:
         return "ok", None
     if not ret:
